@@ -177,6 +177,11 @@ def _havoc(interp, frame, spec, modified_names, tag):
                 parts = name.split('.')
                 obj = frame.locals.get(parts[0])
                 if obj is None:
+                    for d in reversed(frame.enclosing):      # a variable of an enclosing function
+                        if parts[0] in d:
+                            obj = d[parts[0]]
+                            break
+                if obj is None:
                     raise Unsupported('modifies entry %r: unknown base' % name)
                 for a in parts[1:-1]:
                     obj = interp.getattr(obj, a)
@@ -317,6 +322,9 @@ def _for_symbolic(interp, node, frame, src):
                           % (frame.info.qualname, node.lineno))
     fname = interp.current_function_name()
     label = '%s : loop#%s' % (fname, ordinal)
+    if '.<locals>.' in frame.info.qualname and not frame.info.filename.endswith('functools_model.py'):
+        # a loop of a nested function: ordinals count per function
+        label = '%s : %s loop#%s' % (fname, frame.info.qualname.rpartition('.<locals>.')[2], ordinal)
     modified, _targets = _check_frame(spec, node)
     enum_start = None
     it_cell = None
@@ -332,8 +340,11 @@ def _for_symbolic(interp, node, frame, src):
         start = z3.IntVal(0)
     n = xs.length
 
+    entry = _call_pred(interp, spec.entry, _env_of(interp, frame, {})) if getattr(spec, 'entry', None) else None
+
     def env(i):
-        return _env_of(interp, frame, {'_i': wrap(i), '_xs': xs, '_n': wrap(n), '_start': wrap(start)})
+        return _env_of(interp, frame, {'_i': wrap(i), '_xs': xs, '_n': wrap(n), '_start': wrap(start),
+                                       '_entry': entry})
 
     inv0 = interp.truth(_call_pred(interp, spec.invariant, env(start)))
     st.oblige(label + ' invariant[entry]', inv0, {'kind': 'loop-entry'})
